@@ -30,7 +30,7 @@ RULE = (
     "shapes x margins 0..12 x {spaces,tabs} x {<% %>,<%! %>} x LF/CRLF. distinct = by source text; "
     "non-trivial = re-emission produced text / block bound at least one inner-scope name / margin>0."
 )
-RULE += ' added since: shadowed locals, reads printed after a block, hash / backslash / whitespace-only-line shapes inside strings, comprehensions inside functions, unhashable defaults, keyword-only end-to-end forms. names read after * / ** items in dict, list, set displays and calls. markup with both kinds of quotes after every margin block.'
+RULE += ' added since: shadowed locals, reads printed after a block, hash / backslash / whitespace-only-line shapes inside strings, comprehensions inside functions, unhashable defaults, keyword-only end-to-end forms. names read after * / ** items in dict, list, set displays and calls. markup with both kinds of quotes after every margin block. else clauses of for / try that read names; names bound in one filter argument and read in a later one.'
 ASSUMPTIONS = [
     "CPython's ast, symtable, eval and exec are the reference semantics",
     "blocks never read a name before binding it in the same scope (Mako documents that case separately)",
